@@ -235,6 +235,8 @@ class Interp:
         self.watch_fields = set()      # (class name, field) whose writes are logged as events; (class name, '*') = all
         self.decisions = []            # (test text, outcome) for every branch taken on an Unknown
         self.trace_calls = set()       # qualnames whose invocation is logged as ("call", qual)
+        self.ext_stubs = {}            # dotted external name -> callable(interp, args, kwargs) (models of stdlib calls that can fail)
+        self.max_unknown_len = 2       # an unknown collection is iterated with 0..max_unknown_len unknown elements
         self._modenv = {}
 
     # ------------------------------------------------------------ helpers
@@ -708,8 +710,8 @@ class Interp:
             return self.enum_members(it.ci)
         if isinstance(it, Unknown):
             # unknown collection: 0, 1 or 2 unknown elements
-            n = self.o.choose(3, f"len({it.sym})", key=("len", it.sym))
-            return [self.fresh(f"{it.sym}[{i}]") for i in range(n)]
+            n = self.o.choose(self.max_unknown_len + 1, f"len({it.sym})", key=("len", it.sym))
+            return [Unknown(f"{it.sym}[{i}]") for i in range(n)]
         raise Imprecise(f"cannot iterate {it!r} at {where_}")
 
     def x_With(self, st, env, module):
@@ -914,7 +916,7 @@ class Interp:
             sb = b.sym if isinstance(b, Unknown) else repr(b)
             return Unknown(f"({sa} {type(op).__name__} {sb})")
         if _opaque(a) or _opaque(b):
-            return self.fresh("binop")
+            return Unknown(f"({_sym(a)} {type(op).__name__} {_sym(b)})")
         try:
             return self._OPS[type(op)](a, b)
         except ZeroDivisionError:
@@ -1256,6 +1258,8 @@ class Interp:
 
     # ------------------------------------------------------------ builtins
     def _ext_call(self, name, args, kwargs):
+        if name in self.ext_stubs:
+            return self.ext_stubs[name](self, args, kwargs)
         last = name.split(".")[-1]
         if any(isinstance(a, Unknown) for a in args) and last in ("len", "int", "float", "str", "abs", "min", "max", "sum", "round", "bool", "sorted", "list", "tuple", "set", "any", "all", "repr", "hash"):
             if last == "bool" and len(args) == 1 and not kwargs:
